@@ -411,6 +411,14 @@ fn create_pkg_length(len: usize, include_self: bool) -> Vec<u8> {
     result
 }
 
+/// Verification hook (guarded, add-only): exposes the private PkgLength
+/// encoder so that every length below 2^28 can be enumerated without
+/// materialising an object body of that size.
+#[cfg(rust_vmm_acpi_tables_verif)]
+pub fn verif_create_pkg_length(len: usize, include_self: bool) -> Vec<u8> {
+    create_pkg_length(len, include_self)
+}
+
 /// EISAName object. 'value' means the encoded u32 EisaIdString.
 pub struct EISAName {
     value: DWord,
